@@ -1268,22 +1268,12 @@ impl ArgMatches {
         &mut self,
         arg: &str,
     ) -> Result<Option<MatchedArg>, MatchesError> {
-        ok!(self.verify_arg(arg));
-        let (id, matched) = match self.args.remove_entry(arg) {
-            Some((id, matched)) => (id, matched),
-            None => {
-                return Ok(None);
-            }
-        };
-
-        let expected = AnyValueId::of::<T>();
-        let actual = matched.infer_type_id(expected);
-        if actual == expected {
-            Ok(Some(matched))
-        } else {
-            self.args.insert(id, matched);
-            Err(MatchesError::Downcast { actual, expected })
+        // Check the type before taking the entry out so a failed removal leaves
+        // `self` (including the order of its entries) untouched
+        if ok!(self.try_get_arg_t::<T>(arg)).is_none() {
+            return Ok(None);
         }
+        Ok(self.args.remove(arg))
     }
 
     fn verify_arg_t<T: Any + Send + Sync + 'static>(
